@@ -528,6 +528,13 @@ _collection_resolver = AbstractTypeResolver("""),
             else:
                 converted[key] = value""", """            nested = value._to_base() if _sc_resolver.get_type(value) == "SYNCEDCOLLECTION" else None
             converted[key] = nested or value""")]),
+    dict(id="c10-buffer-lock-only-if-buffered", fires={"C10": "C10.g"},
+         edits=[(BUF + "file_buffered_collection.py", """    def __enter__(self):
+        self._collection._buffer_lock.__enter__()
+        try:""", """    def __enter__(self):
+        if self._collection._is_buffered:
+            self._collection._buffer_lock.__enter__()
+        try:""")]),
     dict(id="c19-memoizes-lying-class", fires={"C19": "C19.e"},
          edits=[("utils.py", """            if getattr(obj, "__class__", obj_type) is obj_type and not issubclass(
                 obj_type, tuple(self.cache_blocklist)
